@@ -2,8 +2,9 @@
 """Generate /verif/MANIFEST.json from the table below (keeps the manifest valid and in one place)."""
 import json, subprocess
 
-ENGINE_NAME = {"LK": "loopsim (event-loop simulation) + coresim (the bare scheduler on generated timed histories)", "LW": "loopsim (event-loop simulation) + wholeloop (the real select! loop on a paused, seeded tokio runtime)", "L": "loopsim (event-loop simulation)", "K": "coresim (core timed-history simulation)", "T": "tasksim (task-schedule simulation)"}
+ENGINE_NAME = {"TS": "tasksim (task-schedule simulation) + shuttlesim (thread-schedule simulation of the configuration under shuttle)", "LK": "loopsim (event-loop simulation) + coresim (the bare scheduler on generated timed histories)", "LW": "loopsim (event-loop simulation) + wholeloop (the real select! loop on a paused, seeded tokio runtime)", "L": "loopsim (event-loop simulation)", "K": "coresim (core timed-history simulation)", "T": "tasksim (task-schedule simulation)"}
 TECH = {
+    "TS": "deterministic simulation with fault injection: own seeded single-thread executor interleaving control clients line by line (malformed-line faults, reference configuration model, entry-point differential) plus shuttle's seeded random / PCT schedulers over setter and reader threads with the configuration atomics replaced by shuttle's; seed+plan replay",
     "LK": "deterministic simulation with fault injection: seeded event-loop simulator around the real shell arms (virtual clock, in-memory socket seams, fault actions) plus seeded timed event histories on the real core for the bare scheduler; independent eligibility model at every routing decision; seed+plan replay",
     "LW": "deterministic simulation with fault injection: seeded event-loop simulator around the real shell arms (virtual clock, in-memory socket seams, ledger/invariant monitors) plus whole-loop runs of the real run_sender_with_config on a paused-clock current-thread tokio runtime with seeded select! order and wire-level oracles; seed+plan replay",
     "L": "deterministic simulation with fault injection: seeded event-loop simulator around the real shell arms, virtual clock, in-memory socket seams, invariant/ledger monitors, seed+plan replay",
@@ -85,9 +86,9 @@ P = {
    "Tick-by-tick histories for the real WeakLinkFilter::classify (bitrates idling, starving and crossing the bypass floor, one-tick RTT blips and sustained rises, queue building through real RTT-tracker samples, links joining / leaving / dropped from the tick set); a temporal monitor checks the five clauses of the statement. Temporal contract sampled over seeded histories.",
    "Trusted: the bitrate estimate is written directly; the delay tier is the one the classifier reports; permille rounding in the statement's favour.",
    "§P-C17"),
- "C18": (True, "T", "exploration",
+ "C18": (True, "TS", "exploration",
    "RESTRICTED CLAIM. Request-line histories from 1..4 simulated control clients (stdin-style through dispatch, socket-style through dispatch_async with a real SubscriptionContext and hub), interleaved line by line by the seeded executor, with malformed-line faults (truncation at a random offset, arbitrary bytes, non-object JSON, blank lines, wrong versions, ids of every JSON type, ill-typed / missing / extreme parameters, deep nesting); per line: no panic, response well-formedness and error class against a reference reading of the statement, echo of the applied value; after every line the configuration snapshot and a get_status answer must equal a reference model (timeout clamped to 1000..60000); every non-subscription line is also sent to the other entry point on a twin configuration and must get the same answer.",
-   "The totality clause is input-quantified over the whole JSON space: the simulator samples it through the line generator and does not enumerate it. Interleaving is at line granularity; true thread-level races on the configuration atomics are not simulated (each field is one relaxed atomic). A request is a JSON object with string members jsonrpc and method; other JSON may be answered -32700 or -32600 with any id; id null is treated as absent; duplicates of the four known members are not generated (JSON leaves them undefined).",
+   "The totality clause is input-quantified over the whole JSON space: the simulator samples it through the line generator and does not enumerate it. Engine T interleaves at line granularity; the 'concurrent setters and snapshot readers' clause is decided by engine S: /repo/src/config.rs and control.rs are compiled into the simulator a second time with --cfg verif_shuttle, 2..4 setter / reader threads run under shuttle's seeded schedulers, and every observed timeout must lie in 1000..60000 and be a value some request applied (sequentially consistent interleavings only; weak-memory effects of the relaxed atomics are not modelled). A request is a JSON object with string members jsonrpc and method; other JSON may be answered -32700 or -32600 with any id; id null is treated as absent; duplicates of the four known members are not generated (JSON leaves them undefined).",
    "§P-C18"),
  "C20": (True, "T", "exploration",
    "Seeded interleavings (uniform-random and PCT schedules on the in-tree executor, pre-emption at every await that returns Pending and at the H8 yield points inside publish and after each lock acquisition) of 1..2 publishers and 1..3 connection tasks with bounded channels of capacity 1..8 doing subscribe / unsubscribe / drain / close; in 60% of runs every subscriber-side task outside a hub critical section is stalled for good at a seeded poll. Oracles: every publish completes without any subscriber poll; per subscription topic, own id, global id uniqueness, per-publisher order and at-most-once, subscribers agree on the order of common events; nothing whose publish was invoked after an unsubscribe returned; closed subscribers pruned by the next completed publish of their topic. Seeded sampling of schedules; the schedule is recorded and replayed.",
